@@ -1189,6 +1189,22 @@ def check_case(case, props):
         inconc('canonical_build_raises:' + ':'.join(bad0[0].get('exc', ['?'])))
         return {'violations': viols, 'stats': stats}
     if not r0['ok']:
+        # arbiter (as in M-PEER / M-DET): the engine called directly on a snapshot of the compiled program through the
+        # independent translation raises as well -> the refusal is the engine's own (seen: ECOS cannot set up a program
+        # that has a row without variables); nothing about build history can be judged on such a program
+        try:
+            from machines.peer import snapshot
+            snap_ = snapshot(it0.env[decl['model']].do_math())
+            try:
+                direct.DIRECT[ENGINE_OF[case['canon_solver']]](snap_)
+                engine_raises = False
+            except Exception:
+                engine_raises = True
+        except Exception:
+            engine_raises = False
+        if engine_raises:
+            inconc('engine_itself_raises:' + case['canon_solver'])
+            return {'violations': viols, 'stats': stats}
         viol('L0-canonical-solve-raises', 'canonical build: solve raised %s' % (r0.get('exc'),),
              canon_ops(decl), exc=':'.join(r0.get('exc', [])))
         return {'violations': viols, 'stats': stats}
